@@ -95,7 +95,21 @@ def run_case(name, s, s2, reject, multicast, prior, collect, entries, snapshot=F
         def ident(e):
             return (e[0], e[1], e[2], e[3], e[4], e[6])
 
-        if prior != "none":
+        if prior == "flushed":
+            # the sender asked for the service (FindService answered into its send queue), the announcer was
+            # stopped inside the collection window (the queue is flushed) and started again
+            if specs and name not in ("not-started", "stopped"):
+                session += 1
+                sp = specs[0]
+                prot.datagram_received(refcodec.sd_message(session, [("find", sp[0], 0xFFFF, 0xFF, 3, 0xFFFFFFFF, (), ())]), CL, False)
+                loop.run_until(loop.time() + collect / 2)
+                prot.announcer.stop()
+                loop.run_until(loop.time() + 4 * C)
+                prot.announcer.start()
+                loop.run_until(loop.time() + 0.5)
+            prot.transport.sent.clear()
+            log.clear()
+        elif prior != "none":
             p = entries[0]
             pe = p[:5] + (3,) + p[6:] if prior == "same" else p[:4] + ((p[4] + 1) % 16, 3) + p[6:]
             session += 1
@@ -210,15 +224,17 @@ def multicast_twin(name, s, s2, reject, prior, collect, entries):
     return keys[0] == keys[1]
 
 
-def domain(ctx, s, s2):
-    counters = (0, 1, 15)
-    ttls = (0, 1, 3, INF)
-    return list(itertools.product((s, s2), (1, 2), (1, 2), (5, 6, 7), counters, ttls, (0, 1, 2), (0, 1)))
+def domain(thorough, s, s2):
+    counters = (0, 1, 15) if not thorough else (0, 1, 7, 15)
+    ttls = (0, 1, 3, INF) if not thorough else (0, 1, 3, 0xFFFF, 0x10000, 0xFFFFFE, INF)
+    insts = (1, 2) if not thorough else (1, 2, 0xFFFF)
+    majors = (1, 2) if not thorough else (1, 2, 0xFF)
+    return list(itertools.product((s, s2), insts, majors, (5, 6, 7), counters, ttls, (0, 1, 2), (0, 1)))
 
 
 def part(args):
     name, s, s2, reject, multicast, prior, collect, thorough = args
-    ents = domain(None, s, s2)
+    ents = domain(thorough, s, s2)
     res = []
     n = 0
     classes = {}
@@ -261,7 +277,8 @@ def check(ctx):
     s, s2 = sids(ctx.seed)
     jobs = [(name, s, s2, reject, mc, prior, col, ctx.thorough)
             for name in SERVER_CONFIGS for reject in (0, 1) for mc in (0, 1)
-            for prior in ("none", "same", "other") for col in (0, C)]
+            for prior in ("none", "same", "other", "flushed") for col in (0, C)
+            if not (prior == "flushed" and (col == 0 or mc))]
     out = core.pmap(part, jobs, 1)
     pj = [(name, s, s2, reject, col) for name in ("running", "three", "stopped", "wild-instance")
           for reject in (0, 1) for col in (0, C)]
